@@ -61,13 +61,14 @@ class Job:
     def __init__(self, hname, h, vname, var, tier):
         self.hname, self.h, self.vname, self.var, self.tier = hname, h, vname, var, tier
         self.id = '%s.%s' % (hname, vname)
-        self.dir = os.path.join(BUILD, self.id)
+        self.dir = os.path.join(BUILD, self.id)   # re-pointed to build/<property>/<id> once the property is known
         self.hdir = os.path.join(V, h['dir'])
         self.defs = dict(h.get('defs', {}))
         self.defs.update(var.get('defs', {}))
         self.unwind = var.get('unwind', h.get('unwind', 8))
         self.timeout = var.get('timeout', h.get('timeout', 600))
         self.mem = var.get('mem_gb', h.get('mem_gb', 14))
+        self.prop = None
         self.res = {'id': self.id, 'harness': hname, 'variant': vname, 'defs': self.defs, 'unwind': self.unwind}
 
     def oomd_srcs(self):
@@ -224,9 +225,23 @@ class Job:
             if rc:
                 raise Broken('gcc (real build) failed on %s: %s' % (s, e[-2000:]))
             cobjs.append(o)
-        rc, o, e, _ = sh(['g++', '-fsanitize=address,undefined', '-Wl,--unresolved-symbols=ignore-all'] + objs + cobjs + ['-lm', '-lpthread', '-o', exe])
+        link = ['g++', '-fsanitize=address,undefined', '-Wl,--no-demangle'] + objs + cobjs
+        rc, o, e, _ = sh(link + ['-lm', '-lpthread', '-o', exe])
         if rc:
-            raise Broken('link (real build) failed: ' + e[-3000:])
+            # functions the IR build dropped as unreachable (globaldce) are still referenced by the object files: give them
+            # aborting bodies so that reaching one is loud, and relink
+            syms = sorted(set(re.findall(r"undefined reference to `([A-Za-z0-9_.$]+)'", e)))
+            if not syms:
+                raise Broken('link (real build) failed: ' + e[-3000:])
+            stub = os.path.join(self.dir, 'unresolved_stubs.s')
+            with open(stub, 'w') as f:
+                f.write('.text\n')
+                for sy in syms:
+                    f.write('.globl %s\n.type %s,@function\n%s:\n  call vf_unresolved_stub\n' % (sy, sy, sy))
+                f.write('.section .note.GNU-stack,"",@progbits\n')
+            rc, o, e, _ = sh(link + [stub, '-lm', '-lpthread', '-o', exe])
+            if rc:
+                raise Broken('link (real build) failed: ' + e[-3000:])
         return exe
 
     _dephash_cache = {}
@@ -293,6 +308,15 @@ def write_nd(nd, path):
             f.write('%s %d %s\n' % (kind, k, v))
 
 
+def label_applies(desc, prop):
+    """Assertion labels of the form 'C05: ...' or 'C02/C05/C06: ...' belong to those properties only; unlabelled
+    assertions (UB, pointer checks, escaping exceptions) belong to every property of the harness."""
+    m = re.match(r'^((?:C\d\d)(?:/C\d\d)*):', desc)
+    if not m or prop == 'ALL':
+        return True
+    return prop in m.group(1).split('/')
+
+
 def is_expected_fail(desc):
     return desc.startswith('REACH') or desc.startswith('WITNESS')
 
@@ -317,9 +341,10 @@ def run_job(job, ndiff):
         if not exp:
             raise Broken('harness has no WITNESS obligation')
         notreached = sorted({p['description'] for p in exp if p['status'] != 'FAILURE'} - {p['description'] for p in exp if p['status'] == 'FAILURE'})
-        if notreached:
+        r['reach_missing'] = notreached
+        if notreached and (not job.var.get('reach_optional') or any(x.startswith('WITNESS') for x in notreached)):
             raise Broken('vacuous: not reachable: ' + '; '.join(notreached))
-        r['reach_ok'] = sorted({p['description'] for p in exp})
+        r['reach_ok'] = sorted({p['description'] for p in exp if p['status'] == 'FAILURE'})
         unwind_fail = [p for p in fails if 'unwinding assertion' in p.get('description', '')]
         if unwind_fail:
             loc = unwind_fail[0].get('sourceLocation', {})
@@ -327,7 +352,8 @@ def run_job(job, ndiff):
         model_fail = [p for p in fails if p.get('description', '').startswith('model:') or p.get('description', '').startswith('translator:')]
         if model_fail:
             raise Broken('model bound assertion failed: ' + model_fail[0]['description'])
-        real_fails = [p for p in fails if not is_expected_fail(p.get('description', ''))]
+        real_fails = [p for p in fails if not is_expected_fail(p.get('description', '')) and label_applies(p.get('description', ''), job.prop)]
+        r['other_property_failures'] = sorted({p['description'] for p in fails if not is_expected_fail(p.get('description', '')) and not label_applies(p.get('description', ''), job.prop)})
         r['n_failed'] = len(real_fails)
         # second run with traces: one per distinct failing description, plus the end-of-oracle witness as a sample
         want = {}
@@ -426,7 +452,7 @@ def load_known():
     if os.path.exists(p):
         for l in open(p):
             l = l.strip()
-            if l and not l.startswith('#'):
+            if l and l.startswith('{'):
                 kf.append(json.loads(l))
     return kf
 
@@ -453,7 +479,11 @@ def main():
             continue
         vs = h.get('variants', {}).get(tier) or h.get('variants', {}).get('quick') or [{}]
         for i, var in enumerate(vs):
+            if 'props' in var and a.prop not in var['props'] and a.prop != 'ALL':
+                continue
             jobs.append(Job(hname, h, var.get('name', 'v%d' % i), var, tier))
+            jobs[-1].prop = a.prop
+            jobs[-1].dir = os.path.join(BUILD, a.prop, jobs[-1].id)
     if a.replay:
         jid, path = a.replay.split(':', 1)
         job = next(j for j in jobs if j.id == jid)
